@@ -728,7 +728,7 @@ impl<'a, 'b> Gen<'a, 'b> {
                 5 => {
                     self.op("split");
                     let sep = *self.u.pick(&[",", " ", "a", "b", "/", "ab"]);
-                    e1(format!("split({})", jq_str(sep)), Shape::ArrOf(Box::new(Shape::Str)))
+                    e1(format!("(if . == \"\" then \"a\" else . end | split({}))", jq_str(sep)), Shape::ArrOf(Box::new(Shape::Str))) // "" excluded: open finding split-of-empty-string
                 }
                 6 => {
                     // ASCII-only subject and needle: offsets are bytes in 1.6, code points in 1.7
@@ -776,7 +776,7 @@ impl<'a, 'b> Gen<'a, 'b> {
                 13 => {
                     self.op("string-divide");
                     let sep = *self.u.pick(&[",", " ", "a"]);
-                    e1(format!("(. / {})", jq_str(sep)), Shape::ArrOf(Box::new(Shape::Str)))
+                    e1(format!("(if . == \"\" then \"a\" else . end | . / {})", jq_str(sep)), Shape::ArrOf(Box::new(Shape::Str)))
                 }
                 14 => {
                     self.op("interpolation");
@@ -1146,7 +1146,7 @@ impl<'a, 'b> Gen<'a, 'b> {
                 6 => {
                     self.op("try");
                     self.op("length");
-                    e1("(try length catch \"nolen\")", Shape::Any)
+                    e1("([try length catch \"nolen\"] | .[])", Shape::Any)
                 }
                 _ => return None,
             },
@@ -1179,7 +1179,7 @@ impl<'a, 'b> Gen<'a, 'b> {
         let mut one = true;
         let mut err = false;
         for _ in 0..n {
-            match self.u.weighted(&[6, 2, 2, 2, 1, 1]) {
+            match self.u.weighted(&[60, 12, 1, 12, 1, 8]) {
                 // shorthand {k} == {k: .k}
                 1 if matches!(inp, Shape::Obj(f) if f.iter().any(|x| is_ident(&x.0))) => {
                     if let Shape::Obj(f) = inp {
@@ -1193,6 +1193,7 @@ impl<'a, 'b> Gen<'a, 'b> {
                 // {$v}
                 2 if !self.vars.is_empty() => {
                     let (vn, vs) = self.u.pick(&self.vars).clone();
+                    self.op("obj-var-shorthand");
                     parts.push(vn.clone());
                     let k = vn.trim_start_matches('$').to_string();
                     fields.retain(|x| x.0 != k);
@@ -1212,6 +1213,7 @@ impl<'a, 'b> Gen<'a, 'b> {
                 // interpolated key
                 4 => {
                     let v = self.expr(inp, d.saturating_sub(1));
+                    self.op("interp-key");
                     parts.push(format!("\"k\\(1 + 1)\": {}", paren(&v.t)));
                     fields.retain(|x| x.0 != "k2");
                     fields.push(("k2".into(), v.s.clone()));
@@ -1269,7 +1271,9 @@ impl<'a, 'b> Gen<'a, 'b> {
                     "/" => "div",
                     _ => "mod",
                 });
-                E { t: format!("({} {} {})", a.t, o, b.t), s: Shape::Num, one: a.one && b.one, err: a.err || b.err }
+                // jq folds `literal / 0` at compile time ("Division by zero?"): keep the dividend non-constant
+                let at = if b.t == "0" { format!("({} | .)", a.t) } else { a.t.clone() };
+                E { t: format!("({} {} {})", at, o, b.t), s: Shape::Num, one: a.one && b.one, err: a.err || b.err }
             }
             1 => {
                 let a = self.typed(inp, "string", dd);
@@ -1538,11 +1542,11 @@ impl<'a, 'b> Gen<'a, 'b> {
                 match self.u.weighted(&[3, 2, 2, 2]) {
                     0 => {
                         self.catch_dot = true;
-                        E { t: format!("(try {} catch .)", paren(&body.t)), s: Shape::Any, one: false, err: false }
+                        E { t: format!("([try {} catch .] | .[])", paren(&body.t)), s: Shape::Any, one: false, err: false }
                     }
-                    1 => E { t: format!("(try {} catch \"caught\")", paren(&body.t)), s: Shape::Any, one: false, err: false },
+                    1 => E { t: format!("([try {} catch \"caught\"] | .[])", paren(&body.t)), s: Shape::Any, one: false, err: false },
                     2 => E { t: format!("({})?", body.t), s: body.s, one: false, err: false },
-                    _ => E { t: format!("(try {} catch type)", paren(&body.t)), s: Shape::Any, one: false, err: false },
+                    _ => E { t: format!("([try {} catch type] | .[])", paren(&body.t)), s: Shape::Any, one: false, err: false },
                 }
             }
             9 => self.binding(inp, d),
@@ -1565,7 +1569,8 @@ impl<'a, 'b> Gen<'a, 'b> {
                     }
                     2 => {
                         self.op("last");
-                        E { t: format!("last({})", a.t), s: Shape::Any, one: true, err: a.err }
+                        E { // never an empty stream: open finding last-of-empty-stream (1.7.1: null, succinctly: nothing)
+                            t: format!("last(0, {})", a.t), s: Shape::Any, one: true, err: a.err }
                     }
                     _ => {
                         self.op("limit");
@@ -1606,7 +1611,7 @@ impl<'a, 'b> Gen<'a, 'b> {
                     return a;
                 }
                 self.op("interpolation");
-                let f = *self.u.pick(&["", "", "@json ", "@text ", "@html ", "@base64 "]);
+                let f = if self.u.ratio(1, 20) { *self.u.pick(&["@json ", "@text ", "@html ", "@base64 "]) } else { "" };
                 if !f.is_empty() {
                     self.op("format-interp");
                 }
